@@ -43,7 +43,71 @@ def run(ctx):
             ctx.guarded(rule, 'evaluate' + sfx, lambda: fn(ctx, F, rule, sfx))
 
 
+def private_bounds_lint(repo):
+    """rustc's own `private_bounds` / `private_interfaces` lints (forced on) for the library target -> [(code, message, file, line)]."""
+    import subprocess, json as _json, glob, shutil, os
+    from ..framework import WORK
+    tdir = os.path.join(WORK, 'target-lint')
+    for d in glob.glob(os.path.join(tdir, 'debug', '.fingerprint', 'meshless_voronoi-*')):
+        shutil.rmtree(d, ignore_errors=True)
+    env = dict(os.environ, CARGO_TARGET_DIR=tdir, CARGO_NET_OFFLINE='true', CARGO_INCREMENTAL='0')
+    p = subprocess.run(['cargo', '+nightly', 'rustc', '--offline', '--lib', '--message-format=json', '--', '--force-warn', 'private_bounds', '--force-warn', 'private_interfaces'],
+                       cwd=repo, env=env, capture_output=True, text=True)
+    hits, finished = [], False
+    for line in p.stdout.splitlines():
+        try:
+            m = _json.loads(line)
+        except ValueError:
+            continue
+        if m.get('reason') == 'build-finished':
+            finished = bool(m.get('success'))
+        if m.get('reason') == 'compiler-message':
+            msg = m['message']
+            code = (msg.get('code') or {}).get('code')
+            if code in ('private_bounds', 'private_interfaces'):
+                sp = (msg.get('spans') or [{}])[0]
+                hits.append((code, msg.get('message', ''), sp.get('file_name'), sp.get('line_start')))
+    if not finished:
+        raise AnalysisIncomplete('cargo rustc (lint run) did not finish: %s' % p.stderr[-300:])
+    return hits
+
+
+def r1_lint(ctx, rule):
+    """(thorough tier) no public trait method / impl item of the integral API has a bound or type less visible than itself."""
+    import tempfile, shutil, subprocess, os
+    from ..framework import REPO
+    hits = [h for h in private_bounds_lint(REPO) if 'integrals' in (h[2] or '') or 'Integral' in h[1] or 'ConvexCell' in h[1]]
+    ctx.evaluations += 1
+    if hits:
+        seen = set()
+        for code, msg, f, ln in hits:
+            k = msg.split(' is more private than ')[0]
+            if k in seen:
+                continue
+            seen.add(k)
+            ctx.bad(rule, 'lint:%s:%s' % (code, k[:80]), '%s (%s:%s; %d such items)' % (msg, f, ln, len(hits)), 'every bound of the integral traits can be named by a downstream crate', '%s:%s' % (f, ln), key_extra='lint')
+    else:
+        ctx.ok(rule, 'lint:private_bounds', 'rustc private_bounds / private_interfaces: 0 hits on the integral API', 'every bound of the integral traits can be named by a downstream crate')
+    V_ = os.path.dirname(os.path.dirname(os.path.dirname(os.path.abspath(__file__))))
+    tmp = tempfile.mkdtemp(prefix='mv-lint-')
+    try:
+        dst = os.path.join(tmp, 'repo')
+        shutil.copytree(REPO, dst, ignore=shutil.ignore_patterns('target', '.git', '_out'))
+        pp = subprocess.run(['patch', '-p1', '-s', '-i', os.path.join(V_, 'lintcfg', 'positive_private_bounds.diff')], cwd=dst, capture_output=True, text=True)
+        if pp.returncode != 0:
+            ctx.notes.append('C14.R1 lint positive control does not apply to the current tree (skipped)')
+            return
+        h2 = private_bounds_lint(dst)
+        ctx.evaluations += 1
+        ctx.check(rule, 'lint:positive-control', len(h2) >= 1, '%d hit(s) with the marker trait made pub(crate) again' % len(h2), 'the lint reports the unnameable bound', None, key_extra='lint-control')
+    finally:
+        shutil.rmtree(tmp, ignore_errors=True)
+
+
 def r1(ctx, F, rule, sfx):
+    import os
+    if ctx.tier == 'thorough' and not os.environ.get('VERIF_SELFTEST_CHILD'):
+        ctx.guarded(rule, 'lint', lambda: r1_lint(ctx, rule))
     witness.expect_pass(ctx, rule, 'pass_c14_custom_integrals', 'downstream CellIntegral/FaceIntegral implementations type-check and can be evaluated through every entry point')
     witness.expect_pass(ctx, rule, 'pass_c14_integrals_with_data', 'downstream integrals with Data = f64 implement CellIntegralWithData / FaceIntegralWithData')
     # the bound named in the trait signatures is exported
@@ -360,7 +424,12 @@ def r6(ctx, F, rule, sfx):
         def val(leaf):
             if leaf.key() == more[0].key():
                 return m == more[1]
-            return True      # a face is left (the Some arm)
+            if leaf.op == 'cmp' and 'face_count' in repr(leaf):
+                # a face is left (the Some arm): f < face_count holds
+                op, a, b = leaf.args
+                f_left = repr(a) == 'f'
+                return {'<': f_left, '<=': f_left, '>': not f_left, '>=': not f_left, '!=': True, '==': False}[op]
+            return True
         gf = as_rf(dtab.evaluate(nf_, val))
         gj = as_rf(dtab.evaluate(nj_, val))
         wf, wj = (f_, j_ + 1) if m else (f_ + 1, RF.const(1))
